@@ -85,6 +85,46 @@ theorem listing_atomic_partial (cfg : Cfg) (rq : Req) (fs : FS) (n : Nat) (h : S
     listed cfg (crashAt n (plan cfg rq fs) fs) rq.key = listed cfg (run (plan cfg rq fs) fs) rq.key :=
   listed_atomic_of_countP cfg rq.key _ fs (safe_one_commit cfg rq fs h) n
 
+/-- The class that is crash-atomic once docs/C11-fix-1.diff is applied (`cfg.atomicReplace`): overwrites included.
+    With docs/C11-fix-2.diff (`cfg.tagsFirst`) tagged PutObject requests are included as well. -/
+def SafeFixedB (cfg : Cfg) (rq : Req) (fs : FS) : Bool :=
+  cfg.atomicReplace && !cfg.sidecar && keyOKB rq.key &&
+  match rq.op with
+  | .put => !rq.tags || cfg.tagsFirst
+  | .copy => (readAttr cfg fs (objPath cfg rq.src) "X-Amz-Tagging").isNone
+  | .delete => !(cfg.verDir && cfg.vstatus != .off)
+  | .uploadPart => true
+  | .complete => true
+
+theorem fixed_one_commit (cfg : Cfg) (rq : Req) (fs : FS) (h : SafeFixedB cfg rq fs = true) :
+    (plan cfg rq fs).countP (fun s => !s.silent (reads cfg rq.key)) ≤ 1 := by
+  simp only [SafeFixedB, Bool.and_eq_true, Bool.not_eq_eq_eq_not, Bool.not_true] at h
+  obtain ⟨⟨⟨har, hs⟩, hkB⟩, hop⟩ := h
+  have hk := keyOK_of_B hkB
+  unfold plan
+  split <;> rename_i hopEq <;> rw [hopEq] at hop <;>
+    simp only [Bool.or_eq_true, Option.isNone_iff_eq_none, Bool.not_eq_eq_eq_not, Bool.not_true] at hop
+  · refine countP_planPutSpec_fixed cfg hs har rq rq.key hk fs _ ?_
+    rcases hop with hop | hop <;> simp [putSpecOf, hop]
+  · unfold planCopy
+    dsimp only
+    split
+    · split
+      · simp
+      · refine countP_planPutSpec_fixed cfg hs har rq rq.key hk fs _ ?_
+        simp [hop]
+    · simp
+  · exact countP_planDelete_unversioned cfg hs (by simpa using hop) rq hk fs
+  · exact Nat.le_trans (Nat.le_of_eq (countP_zero_of_silent (silent_of_aside (aside_planUploadPart cfg hs rq hk fs) hk))) (Nat.zero_le 1)
+  · exact countP_planComplete_fixed cfg hs har rq hk fs
+
+/-- What the proposed repair buys: with `tmpfile.link` replacing by rename (docs/C11-fix-1.diff) every PutObject,
+    CopyObject and CompleteMultipartUpload — onto a new OR an existing key — is crash-atomic in the xattr store. -/
+theorem crash_atomic_fixed (cfg : Cfg) (rq : Req) (fs : FS) (n : Nat) (h : SafeFixedB cfg rq fs = true) :
+    view cfg (crashAt n (plan cfg rq fs) fs) rq.key = view cfg fs rq.key ∨
+    view cfg (crashAt n (plan cfg rq fs) fs) rq.key = view cfg (run (plan cfg rq fs) fs) rq.key :=
+  view_atomic_of_countP cfg rq.key _ fs (fixed_one_commit cfg rq fs h) n
+
 /-- Where a request can write at all (every configuration): temp areas, the versioning area, the key's own entry
     and its ancestors, the key's sidecar entries and their ancestors. -/
 theorem plan_writes_owned (cfg : Cfg) (rq : Req) (fs : FS) : WritesOwned cfg rq.key (plan cfg rq fs) :=
@@ -158,6 +198,10 @@ example : Unrelated ["k"] ["zz"] := by
   refine ⟨?_, ?_, by decide⟩ <;> (intro h; exact absurd (List.cons_prefix_cons.mp h).1 (by decide))
 -- safe deletes, completes and part uploads exist as well
 example : SafeB {} { op := .delete, key := ["zz"] } fs0 = true := by decide
+-- the repaired variant: an overwrite is in the safe class, its plan renames over the object (no unlink)
+example : SafeFixedB { atomicReplace := true } { op := .put, key := ["zz"] } fs0 = true := by decide
+example : (plan { atomicReplace := true } { op := .put, key := ["zz"] } fs0).length = 7 := by decide
+example : (plan { atomicReplace := true } { op := .put, key := ["zz"] } fs0).contains (.unlink ["R", "b", "zz"]) = false := by decide
 example : (plan {} { op := .delete, key := ["zz"] } fs0).length = 1 := by decide
 
 end Vgw.Props.C11
